@@ -598,7 +598,12 @@ var scalarTexts = []string{`null`, `true`, `false`, `0`, `-0`, `1`, `-1`, `12`, 
 	`""`, `"a"`, `"12"`, `"-1"`, `"1.5"`, `"true"`, `"false"`, `"TRUE"`, `"t"`, `"1e2"`, `"0x10"`, `"010"`, `"NaN"`, `"Inf"`, `" 1"`, `"2021-09-24"`, `"2021-02-30"`, `"2021-9-24"`, `"2021-09-24T21:21:00Z"`,
 	`"2021-09-24T21:21:00+02:00"`, `"2021-09-24T21:21:00.5-03:30"`, `"2021-01-02T3:04:05Z"`, `"2021-01-02T03:04:05,5Z"`, `"2021-01-02T03:04:05.123456789123Z"`, `"2021-01-02T03:04:05.5+00:00"`, `"2021-09-24T21:21:00"`, `"2021-09-24T21:21:00+24:60"`, `"0000-01-01T00:00:00Z"`, `"9999-12-31T23:59:59Z"`, `"1632518460"`,
 	`"AQ=="`, `"AQAAAA=="`, `"AQAAAAAAAAA="`, `"aGVsbG8="`, `"aGVsbG9="`, `"aGVsbG8"`, `"!!"`, `"AAAAAAAA8D8="`, `"MTI="`, `"dHJ1ZQ=="`, `"é"`, `"😀"`, `"\n\t\"\\\/"`, `"<&>"`, `" "`, `"\u0000"`, `"\ud800"`,
-	`[]`, `[1,"a",null]`, `[{"q":1,"b":2}]`, `{}`, `{"q":1,"b":2}`, `{"zz":{"y":1,"x":[1,{"k":2,"a":3}]},"aa":2}`, `[[],[[]]]`}
+	`[]`, `[1,"a",null]`, `[{"q":1,"b":2}]`, `{}`, `{"q":1,"b":2}`, `{"zz":{"y":1,"x":[1,{"k":2,"a":3}]},"aa":2}`, `[[],[[]]]`,
+	// the shortest texts a hand-written recogniser of numbers, booleans or dates meets: a lone sign, point or
+	// exponent mark, a sign and nothing to sign, a digit short of a form
+	`"-"`, `"+"`, `"."`, `"e"`, `"E"`, `"-."`, `"-e"`, `".5"`, `"5."`, `"-0"`, `"+1"`, `"--1"`, `"1-"`, `"0x"`, `"_"`, `"1_0"`, `"T"`, `"Z"`, `":"`, `"-:"`, `"="`, `"===="`, `"A"`,
+	// arrays that do not hold one kind of thing: an object first and something else later
+	`[{"a":1},2]`, `[{"a":1},null,[{"b":2},"x"]]`}
 
 func randValueText(r *rng) string {
 	return pick(r, scalarTexts)
